@@ -12,7 +12,7 @@ use vcommon::engine::Report;
 use vcommon::gen::{self, ModelCfg};
 use vcommon::oracle::UNK;
 
-use crate::checks::{c01, c03, c04, c06, c08, c14, c15};
+use crate::checks::{c01, c03, c04, c06, c08, c13, c14, c15};
 
 pub fn build_kind() -> &'static str {
     if cfg!(debug_assertions) {
@@ -59,8 +59,49 @@ filter changes something).";
     rep.run_prop("sweep-reuse", rule, n, c08::case_strategy, c08::test_case);
     let n = rep.n(1000, 30000);
     rep.run_prop("sweep-serialize", rule, n, c14::case_strategy, c14::test_case);
+    rep.run_enum(
+        "sweep-long-texts",
+        "texts of 65,535 .. 131,080 characters through predict + fill_tags with a tagged model \
+(the long-texts cases of C06) and the 70,000-character / 70,000-pattern scale cases of C01, in \
+this sanitizer build",
+        false,
+        c06::long_text_cases().into_iter(),
+        |c: &c06::TagCase| c06::test_case(c).map(|mut i| { i.nontrivial = true; i }),
+    );
+    rep.run_enum(
+        "sweep-scale",
+        "the deterministic scale cases of C01 (70,000-character text, 70,000 n-grams, 5,000-character \
+word, window 255) in this sanitizer build",
+        false,
+        (0u8..4).map(|kind| c01::ScaleCase { kind }),
+        |c: &c01::ScaleCase| c01::test_case(&c01::scale_model(c)).map(|mut i| { i.nontrivial = true; i }),
+    );
+    // the other feature configurations: worker processes compiled with debug assertions
+    let names = c13::checked_worker_names();
+    if names.is_empty() {
+        eprintln!("no checked workers found; run tools/build_workers.sh quick checked");
+        std::process::exit(2);
+    }
+    let n = rep.n(3000, 40000);
+    rep.run_prop(
+        "feature-configurations",
+        &format!(
+            "generated tagged models x texts sent to {} worker processes, one per vaporetto feature \
+subset, each compiled with debug assertions (vaporetto's debug_assert!s in front of its unchecked \
+operations and the standard library's checks of unsafe preconditions): predict, fill_tags, \
+serialise + reload the predictor and repeat, both writers, token iteration and five post-filters. \
+A worker that dies or reports a panic is a violation (results are C13's question). Non-trivial = \
+multi-byte text and a model with tag models. Builds: {}",
+            names.len(),
+            names.join(" | ")
+        ),
+        n,
+        || c06::case_strategy(ModelCfg::TAGGED),
+        c13::test_case_checked,
+    );
     rep.extra("build", serde_json::json!(build_kind()));
-    rep.assume("ASan + checked-precondition sweeps run for the default feature set; C13 covers all 48 feature subsets for results but without sanitizers");
+    rep.extra("checked_feature_builds", serde_json::json!(names));
+    rep.assume("the AddressSanitizer sweeps run for the default feature set; the other feature subsets (quick 7, thorough 48) run in worker processes with debug assertions but without AddressSanitizer");
     if !cfg!(debug_assertions) {
         rep.assume("THIS RUN USED A PLAIN RELEASE BUILD: unchecked preconditions were not checked (run through ./check C18, which builds the sanitizer binary)");
     }
